@@ -540,6 +540,7 @@ def run(ctx):
         'polygon validity is decided by Lib/ValidDefs.valid_geom (C05); seg_class of Lib/KernelDefs is executed beside the proved '
         'segment test and must agree', 'correspondence is sampled (generator quality bounds it)']
     ok_build = ctx.build_repo('rel')
+    ctx.translate(['LR_compareLocationValues'])
     ok_coq, ax = ctx.coq_build('Properties_C19')
     drv = ctx.ocaml_driver('C19')
     if not ok_build or not ctx.cxx(os.path.join(ROOT, 'harness/c19.cpp'), HEXE, 'rel'):
@@ -550,8 +551,8 @@ def run(ctx):
         return replay(ctx, drv)
     rng = ctx.rng
     q = ctx.quick
-    N = dict(merge=250 if q else 4000, node=250 if q else 4000, poly=200 if q else 3000, shared=150 if q else 2500,
-             lr=500 if q else 8000)
+    N = dict(merge=250 if q else 2000, node=250 if q else 2000, poly=200 if q else 1600, shared=150 if q else 1200,
+             lr=500 if q else 4000)
     cases = []
     corpus = os.path.join(ROOT, 'gen/corpus/C19.jsonl')
     if os.path.exists(corpus):
@@ -1207,7 +1208,7 @@ def fails(ctx, drv, c, clause):
 def shrink_case(ctx, drv, c, clause):
     key = 'lines' if 'lines' in c else ('comps' if 'comps' in c else None)
     keys = [key] if key else ['g1', 'g2']
-    cur = dict(c); budget = 120
+    cur = dict(c); budget = 10 if clause == 'no-crash' else 120
     changed = True
     while changed and budget > 0:
         changed = False
